@@ -442,3 +442,25 @@ mod tests {
         assert!(counts.record_data_frame(0).is_err());
     }
 }
+
+#[cfg(feature = "h2_verif")]
+impl Counts {
+    /// Read-only statistics for the verification harness (JSON object body).
+    pub(super) fn verif_json(&self) -> String {
+        format!(
+            "\"num_send_streams\":{},\"max_send_streams\":{},\"num_recv_streams\":{},\"max_recv_streams\":{},\
+             \"num_local_reset_streams\":{},\"max_local_reset_streams\":{},\"num_remote_reset_streams\":{},\
+             \"max_remote_reset_streams\":{},\"num_local_error_reset_streams\":{},\"num_recv_empty_data_frames\":{}",
+            self.num_send_streams,
+            self.max_send_streams,
+            self.num_recv_streams,
+            self.max_recv_streams,
+            self.num_local_reset_streams,
+            self.max_local_reset_streams,
+            self.num_remote_reset_streams,
+            self.max_remote_reset_streams,
+            self.num_local_error_reset_streams,
+            self.num_recv_empty_data_frames,
+        )
+    }
+}
